@@ -12,8 +12,9 @@ EXPLANATION = (
     "exhaustive). R3 (EFF): the register form of move performs exactly one register write, the memory form exactly one "
     "memory write, nothing else in the arm writes the machine. R4: the location resolver uses no wrapping/saturating "
     "16-bit arithmetic and inspects every checked operation, so an offset that overflows 16 bits cannot wrap into user "
-    "space. The inspection arms are read-only (C09.R1)."
+    "space. The inspection arms are read-only (C09.R1). R4 also: the PC-offset resolver adds the offset to the machine PC itself (RunState::pc, directly or handed in by every caller), never to an adjusted value."
 )
+
 NOT_DECIDED = "value-level correctness of label resolution (C17's subject)"
 
 ORDER_OPS = ("Lt", "Le", "Gt", "Ge")
@@ -298,6 +299,26 @@ def run(ctx):
                     ctx.violation("unchecked|fn=%s" % short(n), sp_file_line(s2.get("sp")), "unchecked arithmetic on an address in `%s`" % short(n))
                 else:
                     ctx.oblig(True)
+    # `^offset` names PC + offset, whatever the PC is: the PC-offset resolver hands the machine's PC itself to the checked addition (a PC
+    # that was first clamped or otherwise adjusted makes `^1` name a word the user did not name whenever the PC has left user space)
+    rpo = ctx.fn("lace::debugger::Debugger::resolve_pc_offset")
+    aos = [(b, t) for b, t, c in rpo.calls() if c == "lace::debugger::Debugger::add_address_offset"]
+    ctx.need(len(aos) == 1, "resolve_pc_offset -> add_address_offset call")
+    base = kit.strip_refs(rpo.expr(aos[0][1]["args"][1], 10))
+    def is_live_pc(e):
+        e = kit.strip_refs(e)
+        return e[0] == "call" and str(e[1]).endswith("RunState::pc") and len(e[2]) == 1
+    okb = is_live_pc(base)
+    if not okb and base[0] == "arg":
+        # the PC is handed in by the caller: every caller passes the machine's PC itself
+        sites_ = [(g, t2) for n2, g in prog.fns.items() if g.bkind == "fn" for b2, t2, c2 in g.calls() if c2 == rpo.name]
+        okb = bool(sites_) and all(base[1] - 1 < len(t2["args"]) and is_live_pc(g.expr(t2["args"][base[1] - 1], 10)) for g, t2 in sites_)
+        if not okb and sites_:
+            base = kit.strip_refs(sites_[0][0].expr(sites_[0][1]["args"][base[1] - 1], 10))
+    ctx.oblig(okb, {"^offset base": expr_str(base, 80)}, "the live PC, unchanged")
+    if not okb:
+        ctx.violation("pc-offset-base", sp_file_line(aos[0][1].get("sp")), "`^offset` is resolved from `%s`, not from the machine's PC itself: with the PC outside user space the "
+                      "location names another word than PC + offset, and a write command acts on a word the user did not name" % expr_str(base, 100))
     ctx.instance(max(nar, len(scope)), {"resolver_functions": sorted(short(x) for x in scope), "arithmetic_sites": nar})
     ctx.note("signed-ordering of addresses (labels >= 0x8000) is decided under C17.R2")
     ctx.finish_rule()
